@@ -381,6 +381,17 @@ impl TargetApi for Poisonable<RetryingLockCollection<CL>> {
     poison_api_write!(RetryingLockCollection<CL>);
     poison_api_read!(RetryingLockCollection<CL>);
 }
+coll_api!(RefLockCollection<'static, CML>, CML);
+coll_api!(BoxedLockCollection<&'static CML>, &'static CML);
+coll_api!(RetryingLockCollection<&'static CML>, &'static CML);
+impl TargetApi for Poisonable<BoxedLockCollection<&'static CML>> {
+    poison_api_write!(BoxedLockCollection<&'static CML>);
+    poison_api_read!(BoxedLockCollection<&'static CML>);
+}
+impl TargetApi for Poisonable<RetryingLockCollection<&'static CML>> {
+    poison_api_write!(RetryingLockCollection<&'static CML>);
+    poison_api_read!(RetryingLockCollection<&'static CML>);
+}
 impl TargetApi for Poisonable<Unit> {
     poison_api_write!(Unit);
     poison_api_read!(Unit);
